@@ -760,6 +760,51 @@ func s10() {
 	g.check()
 	vrt.Observe("how=%d recv=%d", how, len(h.received))
 }
+// S11: the finalizer of EndPointFinalizer (which runs before the reader
+// exists) registers handlers and then decides to close the endpoint - or
+// removes a handler again: both return, every handler is closed exactly once.
+func s11() {
+	how := vrt.ChooseFree(2, "finalizer: Close / RemoveHandler then later Close")
+	a, b := vnet.NewPair("ep", "peer")
+	var h, g *mon
+	var rmErr error
+	vrt.Explore()
+	var ep net.EndPoint
+	w1 := vrt.GoWorker("acceptor", func() {
+		ep = net.EndPointFinalizer(a, func(e net.EndPoint) {
+			h = register(e, "h", matchAllKeep, true)
+			g = register(e, "g", matchNone, true)
+			if how == 0 {
+				e.Close()
+			} else {
+				rmErr = e.RemoveHandler(h.id)
+			}
+		})
+	})
+	w2 := vrt.GoWorker("peer", func() {
+		m := frame(6, 3)
+		m.Write(b)
+	})
+	vrt.Quiesce()
+	if !w1.Done() {
+		vrt.Failf("hang/finalizer", "EndPointFinalizer did not return: its finalizer is blocked on %s", w1.BlockedOn())
+		return
+	}
+	workersDone(w1, w2)
+	if how == 1 {
+		if rmErr != nil {
+			vrt.Failf("live-handler-not-removable/finalizer", "RemoveHandler inside the finalizer failed: %v", rmErr)
+		}
+		ep.Close()
+		vrt.Quiesce()
+	}
+	h.check()
+	g.check()
+	if h.closerCalls != 1 || g.closerCalls != 1 {
+		vrt.Failf("closer-count/finalizer", "closers ran %d and %d times (variant %d)", h.closerCalls, g.closerCalls, how)
+	}
+	vrt.Observe("how=%d recv=%d", how, len(h.received))
+}
 
 func init() {
 	add := func(name string, body func(), q, t int, doc string, must ...string) {
@@ -780,5 +825,6 @@ func init() {
 	add("s8-filter-answers", s8, 1, 3, "every filter answer (matched x keep, including self-removal without consuming) on two frames, RemoveHandler after or during the traffic, then Close()")
 	add("s9-addhandler-callback", s9, 1, 3, "AddHandler (callback consumer) || three frames || RemoveHandler or Close(): callback order, closer exactly once")
 	add("s10-close-reports-error", s10, 1, 3, "the transport's Close returns an error (explicit Close / peer close), or the connection is closed underneath the endpoint, while a frame arrives")
+	add("s11-close-inside-finalizer", s11, 1, 3, "the finalizer of EndPointFinalizer closes the endpoint (or removes a handler) before the reader goroutine exists")
 	add("s6-receiveany-close", s6, 2, 99, "ReceiveAny || two frames || Close()")
 }
